@@ -765,6 +765,9 @@ impl Check for C17 {
         json!({"real": ["Vm::run / Vm::clear / RuntimeData::clear", "allocator + collector", "compiler", "stdlib"],
                "stub": ["host natives (simulated host, failing on request)"]})
     }
+    fn asan_flavour_share(&self) -> bool {
+        true
+    }
     fn required_probes(&self, _tier: Tier) -> Vec<String> {
         vec![
             "fault:timeout_fired".into(),
